@@ -74,12 +74,12 @@ fn cmp_frag(rep: &Report, acc: &mut Acc, p: usize, pos: usize, b: usize, out: &E
 
 pub fn run(tier: Tier) -> i32 {
     let rep = Report::new("C18", tier);
-    rep.set_rule("differential enumeration: encap_preview vs encap (encapsulator fresh, re-use disabled, disabled after the same label, after another label, and at the consecutive-re-use limit: in all of them no substitution applies) over the complete (PDU length x buffer length x label incl. zero and explicit re-use x protocol type) lattice; encap_frag_preview vs encap_frag over (PDU length x context position x buffer length); thorough closes the PDU length completely (every length 0..=70000 against the buffer set) and the buffer length completely for the PDU set (every buffer 0..=70000), and adds all 65536 protocol types; distinct = (call, outcome pair, regime)");
+    rep.set_rule("differential enumeration: encap_preview vs encap (encapsulator fresh, re-use disabled, disabled after the same label, after another label, and at the consecutive-re-use limit: in all of them no substitution applies) over the complete (PDU length x buffer length x label incl. the reserved zero label, explicit re-use and, for small PDUs, special label values such as the all-zero 3-byte label x protocol type) lattice; encap_frag_preview vs encap_frag over (PDU length x context position x buffer length); thorough closes the PDU length completely (every length 0..=70000 against the buffer set) and the buffer length completely for the PDU set (every buffer 0..=70000), and adds all 65536 protocol types; distinct = (call, outcome pair, regime)");
     rep.assume("sizes between the enumerated windows are represented by the windows");
     let labels = [L6A, L3A, Lbl::Bcast, Lbl::ReUse, L6Z];
     let ps: Vec<usize> = if tier.thorough() { (0..=70000).collect() } else { p_set() };
     let bs: Vec<usize> = if tier.thorough() { let mut v = b_set(); v.extend((0..=70000).step_by(499)); uniq(v) } else { b_set() };
-    let cells: Vec<(usize, Lbl)> = ps.iter().flat_map(|&p| labels.into_iter().map(move |l| (p, l))).collect();
+    let cells: Vec<(usize, Lbl)> = ps.iter().flat_map(|&p| labels.into_iter().chain(if p < 48 { special_labels() } else { vec![] }).map(move |l| (p, l))).collect();
     cells.par_iter().for_each(|&(p, l)| {
         if rep.over_time() {
             rep.cap("first: wall cap");
